@@ -514,3 +514,99 @@ Proof.
 Qed.
 End Symm.
 End Assembled.
+
+(* ------------------------------------------------------------------ *)
+(* asymmetric assembly = off-diagonal block of the union                *)
+(* ------------------------------------------------------------------ *)
+Lemma nth_firstn_lt {A} (l : list A) k a d : a < k -> nth a (firstn k l) d = nth a l d.
+Proof.
+  revert k a. induction l as [|x l IH]; intros [|k] [|a] H; cbn; try reflexivity; try lia.
+  apply IH. lia.
+Qed.
+
+Lemma nth_skipn_add {A} (l : list A) k b d : nth b (skipn k l) d = nth (k + b) l d.
+Proof. revert l. induction k as [|k IH]; intros [|x l]; cbn; try reflexivity; [now destruct b|apply IH]. Qed.
+
+Section OffDiag.
+Context {F : Type} (K : Fops F).
+Context {A : Type} (azero : A) (aadd : A -> A -> A) (ascale : F -> A -> A).
+Variable blockf : shell F -> shell F -> list (list (list (list A))).
+Variables b1 b2 : list (shell F).
+Hypothesis C1 : cart_basis b1.
+Hypothesis C2 : cart_basis b2.
+Hypothesis HB : blocks_shaped blockf (b1 ++ b2) (b1 ++ b2).
+Hypothesis Hn2 : 0 < length b2.
+
+Let n1 := length b1.
+
+Lemma sh_at_app_l t : t < n1 -> sh_at K (b1 ++ b2) t = sh_at K b1 t.
+Proof. intros H. unfold sh_at. now rewrite app_nth1. Qed.
+Lemma sh_at_app_r t : sh_at K (b1 ++ b2) (n1 + t) = sh_at K b2 t.
+Proof. unfold sh_at. rewrite app_nth2 by (unfold n1; lia). f_equal. unfold n1. lia. Qed.
+
+Lemma boff_app_l k : k <= n1 -> boff K (b1 ++ b2) k = boff K b1 k.
+Proof. intros H. unfold boff. apply offs_ext. intros t Ht. rewrite sh_at_app_l by lia. reflexivity. Qed.
+Lemma boff_app_r k : boff K (b1 ++ b2) (n1 + k) = btotal K b1 + boff K b2 k.
+Proof.
+  unfold boff at 1. rewrite offs_add. f_equal.
+  - apply (boff_app_l n1). lia.
+  - apply offs_ext. intros t _. now rewrite sh_at_app_r.
+Qed.
+Lemma btotal_app : btotal K (b1 ++ b2) = btotal K b1 + btotal K b2.
+Proof. unfold btotal at 1. rewrite app_length. apply boff_app_r. Qed.
+
+Lemma gidx_app_l i m c : i < n1 -> gidx K (b1 ++ b2) i m c = gidx K b1 i m c.
+Proof. intros H. unfold gidx. rewrite boff_app_l, sh_at_app_l by lia. reflexivity. Qed.
+Lemma gidx_app_r j m c : gidx K (b1 ++ b2) (n1 + j) m c = btotal K b1 + gidx K b2 j m c.
+Proof. unfold gidx. rewrite boff_app_r, sh_at_app_r. lia. Qed.
+
+Lemma cart_basis_app : cart_basis (b1 ++ b2).
+Proof. intros s Hs. apply in_app_or in Hs. destruct Hs; [now apply C1 | now apply C2]. Qed.
+
+Lemma blocks_shaped_12 : blocks_shaped blockf b1 b2.
+Proof. intros sa sb Ha Hb. apply HB; apply in_or_app; auto. Qed.
+
+(* The rectangular assembly of (b1, b2) is rows [0, |b1|) x columns [|b1|, |b1|+|b2|) of the square
+   assembly of the union b1 ++ b2 (|b| = btotal b, the number of basis functions of b). *)
+Theorem asymm_is_offdiag_block_cart :
+  two_asymm_integral K azero aadd ascale blockf b1 b2 None None
+  = map (skipn (btotal K b1)) (firstn (btotal K b1) (two_symm_integral K azero aadd ascale blockf (b1 ++ b2) None)).
+Proof.
+  set (U := two_symm_integral K azero aadd ascale blockf (b1 ++ b2) None).
+  assert (HU : length U = btotal K b1 + btotal K b2).
+  { unfold U. rewrite (two_symm_cart_length K azero aadd ascale blockf (b1 ++ b2) cart_basis_app HB).
+    - apply btotal_app.
+    - rewrite app_length. lia. }
+  assert (Hrow : forall i m c, i < n1 -> m < nseg (sh_at K b1 i) -> c < ncomp (sh_at K b1 i) ->
+            length (nth (gidx K b1 i m c) U []) = btotal K b1 + btotal K b2).
+  { intros i m c Hi Hm Hc. rewrite <- gidx_app_l by exact Hi. unfold U.
+    rewrite (two_symm_cart_row_length K azero aadd ascale blockf (b1 ++ b2) cart_basis_app HB).
+    - apply btotal_app.
+    - rewrite app_length. unfold n1 in Hi. lia.
+    - now rewrite sh_at_app_l.
+    - now rewrite sh_at_app_l. }
+  apply (matrix_ext azero _ _ (btotal K b1) (btotal K b2)).
+  - exact (two_asymm_cart_length K azero aadd ascale blockf b1 b2 C1 C2 blocks_shaped_12 Hn2).
+  - rewrite map_length, firstn_length, HU. lia.
+  - intros a Ha. destruct (gidx_surj K b1 a Ha) as (i & m & c & Hi & Hm & Hc & ->). split.
+    + exact (two_asymm_cart_row_length K azero aadd ascale blockf b1 b2 C1 C2 blocks_shaped_12 i m c Hi Hn2 Hm Hc).
+    + rewrite (nth_map_d _ _ _ []) by (rewrite firstn_length, HU; lia).
+      rewrite nth_firstn_lt by exact Ha. rewrite skipn_length, Hrow by assumption. lia.
+  - intros a b Ha Hb.
+    destruct (gidx_surj K b1 a Ha) as (i & m & c & Hi & Hm & Hc & ->).
+    destruct (gidx_surj K b2 b Hb) as (j & m' & c' & Hj & Hm' & Hc' & ->).
+    rewrite (two_asymm_cart_entry K azero aadd ascale blockf b1 b2 C1 C2 blocks_shaped_12) by assumption.
+    rewrite (nth_map_d _ _ _ []) by (rewrite firstn_length, HU; lia).
+    rewrite nth_firstn_lt by exact Ha. rewrite nth_skipn_add.
+    rewrite <- gidx_app_r, <- (gidx_app_l i m c) by exact Hi. unfold U.
+    assert (Hij : n1 + j < length (b1 ++ b2)) by (rewrite app_length; unfold n1; lia).
+    assert (Hi' : i < length (b1 ++ b2)) by (rewrite app_length; lia).
+    rewrite (two_symm_cart_entry K azero aadd ascale blockf (b1 ++ b2) cart_basis_app HB i (n1 + j) m c m' c' Hi' Hij).
+    + destruct (Nat.leb_spec i (n1 + j)) as [_|Hlt]; [|unfold n1 in *; lia].
+      rewrite sh_at_app_r, (sh_at_app_l i) by exact Hi. reflexivity.
+    + now rewrite sh_at_app_l.
+    + now rewrite sh_at_app_l.
+    + now rewrite sh_at_app_r.
+    + now rewrite sh_at_app_r.
+Qed.
+End OffDiag.
